@@ -634,6 +634,36 @@ def _psd(pbm, profile, scale):
     return x
 
 
+def N0_of(m, site):
+    ns = m.matrixParameters.nucleationSites
+    return {'bulk': ns.bulkN0, 'dislocations': ns.dislocationN0, 'grain boundaries': ns.GBareaN0,
+            'grain edges': ns.GBedgeN0, 'grain corners': ns.GBcornerN0}[site]
+
+
+def _sites_reference(m, sites, x):
+    """Plain-loop transcription of the documented site balance for the target phase 0."""
+    if any(s_ == 'dislocations' for s_ in sites):
+        return None
+    target = sites[0]
+    NAV = NA / m.matrixParameters.volume.Vm
+    used = 0.0
+    for p, s_ in enumerate(sites):
+        if s_ != target:
+            continue
+        r = m.PBM[p].PSDsize
+        M0 = float(sum(x[p][i] for i in range(len(r))))
+        M1 = float(sum(x[p][i] * r[i] for i in range(len(r))))
+        M2 = float(sum(x[p][i] * r[i] ** 2 for i in range(len(r))))
+        npar = m.precipitateParameters[p].nucleation
+        if target in ('bulk', 'grain corners'):
+            used += M0
+        elif target == 'grain boundaries':
+            used += float(npar.gbRemoval) * M2 * NAV ** (2.0 / 3)
+        elif target == 'grain edges':
+            used += math.sqrt(1 - float(npar.GBk) ** 2) * M1 * NAV ** (1.0 / 3)
+    return max(N0_of(m, target) - used, 0.0)
+
+
 def run_sites(case):
     sites, x0, dens, Vm = case['sites'], case['x0'], case['density'], case['Vm']
     viol = []
@@ -682,6 +712,14 @@ def run_sites(case):
                 if prev is not None and not ns <= prev:
                     bad('increases-with-occupation', 'profile=%s who=%s: sites(%r)=%r > previous %r' % (profile, who, sc, ns, prev))
                     break
+                # independent value: all sites minus the sites occupied by EVERY phase of the same site type (docstring of
+                # _calcNucleationSites), each phase with its own distribution.  Dislocation phases are left out of the
+                # reference (DislocationDescription subclasses BulkDescription, so kawin counts them with the bulk phases -
+                # noted in DESIGN.md, outside the statement).
+                ref = _sites_reference(m, sites, x)
+                if ref is not None and abs(ns - ref) > 1e-9 * max(abs(ref), abs(N0_of(m, sites[0])) * 1e-6, 1e-300):
+                    bad('value-vs-reference', 'profile=%s who=%s scale=%r: %r available sites, reference (all sites - sites occupied by each '
+                        'phase of this site type) %r' % (profile, who, sc, ns, ref))
                 outs.add('zero' if ns == 0 else ('full' if prev is None or ns == prev0 else 'reduced'))
                 if prev is None:
                     prev0 = ns
